@@ -126,14 +126,13 @@ def handle (j : Json) : R Json := do
     let classes := (n.filter (·.exported)).map (fun m => Json.mkObj [("m", Json.str m.name),
       ("ic", jstrs (interfaceClassesOf Generated.C06.secopBaseClasses m.mro)), ("features", jstrs (featuresOf m.mro)),
       ("impl", jopt Json.str ((inits.find? (·.1 == m.name)).map (·.2.impl)))])
-    return Json.mkObj [("report", jarr ((describe predef n).map modDescJson)), ("classes", jarr classes)]
-  | "exchange" =>
-    -- the model's answer to every request of the sweep (same stepping as C04's `history`), for the correspondence
-    let t ← parseTables (← fld j "oracle")
-    let (n, _) ← parseNodeInit t (← fld j "node")
-    let steps ← (← fldArr j "steps").mapM (fun s => do
-      return (mkEnv t (← parseDrv (← fld s "drv")), ← parseReq (← fld s "req")))
-    return Json.mkObj [("outs", jarr ((runSteps n steps).map outJson))]
+    -- the model's answer to every request of the sweep (same stepping as C04's `history`), for the exchange correspondence
+    let steps ← match j.getObjVal? "steps" with
+      | .error _ => pure []
+      | .ok a => (← arr a).mapM (fun s => do
+          return (mkEnv t (← parseDrv (← fld s "drv")), ← parseReq (← fld s "req")))
+    return Json.mkObj [("report", jarr ((describe predef n).map modDescJson)), ("classes", jarr classes),
+                       ("outs", jarr ((runSteps n steps).map outJson))]
   | "judge" =>
     let t ← parseTables (← fld j "oracle")
     let (n, inits) ← parseNodeInit t (← fld j "node")
